@@ -1,19 +1,4 @@
-"""Per-property manifest metadata; tools/gen_manifest.py turns this into MANIFEST.json."""
-META = {
-    'C04': dict(
-        spec='Complete.tla, Trace_Complete.tla',
-        text='TLC checks exhaustively (all candidate lists of <=2/3 names from a 28-candidate pool x all '
-             'fragments of <=3 chars x fuzzy) that the transcription of jedi\'s match/filter/sort/suffix code '
-             'satisfies the property\'s clauses; a TLC-emitted slice of cases is replayed into Script.complete '
-             'in two renderings and must equal the model; every recorded complete() call (rendered cases and '
-             'corpus positions) is judged by TLC against the Reference clauses (Trace_Complete); attribute '
-             'completeness is judged against dir() of the executed program.',
-        note='Trusts TLC, the harness fragment regex, and CPython dir() as oracle; corpus calls that raise are '
-             'counted as blocked (C01 decides totality); class receivers blocked by absent typeshed.',
-        technique='TLA+ spec (Design|=Reference) model-checked with TLC; spec->code replay of emitted cases; '
-                  'code->spec trace validation of recorded complete() calls',
-        design_ref='5/C04'),
-}
+"""Manifest data that is not per-check: tools/gen_manifest.py reads META from each harness/props/cXX.py."""
 
 # properties not claimed, with reason (kept current by hand)
 NOT_APPLICABLE = {}
